@@ -2104,8 +2104,18 @@ impl<'t, 'c> Gen<'t, 'c> {
                     main.push(Stmt::Assign(lv, e));
                 }
                 3 => {
-                    // read back immediately
-                    main.push(pr(vec![s_lit("<"), Expr::Load(lv), s_lit(">")]));
+                    // read back immediately; now and then as the LEFT operand of an operator with a plain right operand
+                    // (the subscripts are computed while the other operand is on its way)
+                    let ety = lsty.ety();
+                    if ety.map(|t| t.is_numeric()).unwrap_or(false) && self.t.chance(1, 3) {
+                        let op = *self.t.pick(&[BinOp::Sub, BinOp::Add, BinOp::Mul, BinOp::Eq, BinOp::Lt]);
+                        let right = if self.t.chance(1, 2) { lit_i(3) } else { lit_i(1) };
+                        main.push(pr(vec![s_lit("<"), b(op, Expr::Load(lv), right), s_lit(">")]));
+                    } else if ety == Some(Ty::Str) && self.t.chance(1, 4) {
+                        main.push(pr(vec![s_lit("<"), b(BinOp::Add, Expr::Load(lv), s_lit("+")), s_lit(">")]));
+                    } else {
+                        main.push(pr(vec![s_lit("<"), Expr::Load(lv), s_lit(">")]));
+                    }
                 }
                 4 => {
                     // store through a by-reference parameter
@@ -2141,6 +2151,10 @@ impl<'t, 'c> Gen<'t, 'c> {
                         main.push(Stmt::Assign(zk.clone(), lit_i(idx_vals[d] as i64)));
                         main.push(Stmt::CallSub(p, vec![Expr::Load(lv2), ld(&zw)]));
                         main.push(pr(vec![s_lit("k"), ld(&zk), ld(&zw)]));
+                    } else if self.t.chance(1, 5) {
+                        // the element / field in parentheses is an expression: passed by value, the location keeps its value
+                        main.push(Stmt::CallSub(p, vec![Expr::Paren(Box::new(Expr::Load(lv.clone()))), v]));
+                        main.push(pr(vec![s_lit("("), Expr::Load(lv), s_lit(")")]));
                     } else {
                         main.push(Stmt::CallSub(p, vec![Expr::Load(lv), v]));
                     }
